@@ -160,6 +160,43 @@ theorem unq_quoteBody (s : Bytes) : unq .normal (quoteBody s ++ [34]) = some s :
         rw [unq_plain c _ hc34 hc10 hc13 hc92, ih]
         rfl
 
+/-- a padded decimal escape -/
+theorem unq_decPad (c : UInt8) (k : Bytes) : unq .normal (92 :: (dec3 c ++ k)) = emit c.toNat (unq .normal k) := by
+  simp only [dec3, List.cons_append, List.nil_append]
+  rw [unq_dec3 _ _ _ _ (isDigit_digit _) (isDigit_digit _) (isDigit_digit _)]
+  simp only [dig_sub]
+  congr 1
+  have := c.toNat_lt
+  omega
+
+/-- an unpadded decimal escape in front of something that is not a digit -/
+theorem unq_decShort (c h : UInt8) (t : Bytes) (hh : isDigit h = false) :
+    unq .normal (92 :: (dec c ++ (h :: t))) = emit c.toNat (unq .normal (h :: t)) := by
+  have hlt := c.toNat_lt
+  unfold dec
+  simp only []
+  by_cases c1 : c.toNat < 10
+  · simp only [c1, if_true, List.cons_append, List.nil_append]
+    rw [unq_dec1 _ _ _ (isDigit_digit _) hh, dig_sub]
+    congr 1; omega
+  · simp only [c1, if_false]
+    by_cases c2 : c.toNat < 100
+    · simp only [c2, if_true, List.cons_append, List.nil_append]
+      rw [unq_dec2 _ _ _ _ (isDigit_digit _) (isDigit_digit _) hh]
+      simp only [dig_sub]
+      congr 1; omega
+    · simp only [c2, if_false]
+      have := unq_decPad c (h :: t)
+      simp only [dec3] at this
+      exact this
+
+theorem unq_esc_letter (e : UInt8) (v : Nat) (k : Bytes)
+    (h : (e = 97 ∧ v = 7) ∨ (e = 98 ∧ v = 8) ∨ (e = 102 ∧ v = 12) ∨ (e = 110 ∧ v = 10) ∨ (e = 114 ∧ v = 13) ∨
+         (e = 116 ∧ v = 9) ∨ (e = 118 ∧ v = 11)) :
+    unq .normal (92 :: e :: k) = emit v (unq .normal k) := by
+  conv => lhs; unfold unq
+  rcases h with ⟨rfl, rfl⟩ | ⟨rfl, rfl⟩ | ⟨rfl, rfl⟩ | ⟨rfl, rfl⟩ | ⟨rfl, rfl⟩ | ⟨rfl, rfl⟩ | ⟨rfl, rfl⟩ <;> simp [isDigit]
+
 /-- **`%q` round trip for strings (Lua 5.4 definition), every byte string.** -/
 theorem unquote_quote (s : Bytes) : unquote (quote s) = some s := by
   simp [unquote, quote, unq_quoteBody]
